@@ -174,6 +174,42 @@ def run(ctx):
            not any(o.rule == "R-C14.3" and not o.ok and o.kind == "rule" for o in ctx.obs),
            "examined every call in every journal-lock held region (%d regions) against %d blocking primitives, transitively" % (n_regions, len(BLOCKING)))
 
+    # ... nor under the other database-wide locks: the workers need `keyspaces` (write, when a journal rotation captures the
+    # watermarks) and `journal_manager`; a client thread that waits for background work (back-pressure, write halt, a
+    # blocking queue send) while holding one of them waits for workers that wait for it
+    WIDE = ("keyspaces", "journal_manager")
+    WIDE_EXC = {("keyspaces", "db::Database::recover"): "open path: no handle has been returned yet; the queued messages are consumed once the pool starts"}
+    n_wide = 0
+    for fid, fn in sorted(F.fns.items()):
+        for g in lm.guards(fn):
+            if g.cls not in WIDE:
+                continue
+            n_wide += 1
+            held, kills = A.held_blocks(fn, g)
+            bad = None
+            for b in sorted(held):
+                t = fn.term(b)
+                if t["k"] != "call" or b == g.site or (b in kills and kills[b].startswith("moved-into:")):
+                    continue
+                n = A.cname(t)
+                hit = [n] if n in BLOCKING else (ctx.cg.call_chain(n, BLOCKING) if n in F.fns else None)
+                if hit is None:
+                    for a in t["args"]:
+                        cl = A.closure_of_operand(fn, a)
+                        if cl and cl in F.fns and ctx.cg.call_chain(cl, BLOCKING):
+                            hit = ctx.cg.call_chain(cl, BLOCKING)
+                if hit:
+                    bad = (b, hit)
+                    break
+            if (g.cls, fid) in WIDE_EXC:
+                ctx.ob("R-C14.3", fn, "nothing-waits-under-the-%s-lock" % g.cls, True, "reviewed exception: " + WIDE_EXC[(g.cls, fid)], nontrivial=False)
+                continue
+            ctx.ob("R-C14.3", fn, "nothing-waits-under-the-%s-lock" % g.cls, bad is None,
+                   "no stall / blocking send while the %s lock may be held" % g.cls if bad is None else
+                   "while the `%s` lock (%s) may still be held, %s calls %s: a client waiting for background work under a lock the workers need (journal rotation takes keyspaces.write(), maintenance takes journal_manager) — both sides wait forever" % (
+                       g.cls, g.mode, fn.loc(bad[0]), " -> ".join(bad[1])[:140]), fn.loc(bad[0]) if bad else "")
+    ctx.floor("R-C14.3", "keyspaces / journal_manager held regions examined", n_wide, 20)
+
     # ---- R-C14.4 lock order acyclic
     edges = lm.order_edges()
     ctx.floor("R-C14.4", "lock-order edges", edges, 10)
@@ -319,6 +355,60 @@ def run(ctx):
             detail = "every iteration of the halt loop sends WorkerMessage::Compact for this keyspace before it sleeps" if ok else \
                 "the write-halt loop only sleeps and re-reads l0_run_count(): nobody requests the compaction it waits for — when the post-flush Compact messages were consumed while another compaction ran, writers stay parked forever on an idle database"
         ctx.ob("R-C14.7", cwh, "halted-writer-requests-compaction", ok, detail)
+
+    # ---- R-C14.9 a worker leaves its loop only when it is told to (Close) or the queue is gone.  worker_tick answers Ok(true)
+    # ("stop") on exactly those two edges; an Ok(true) anywhere else (no flush task to dequeue, a bounced compaction, the
+    # ordinary end of a tick) shrinks the pool until nothing flushes or compacts any more and the write stalls never end.
+    wt9 = ctx.fn("worker_pool::worker_tick", "R-C14.9")
+    if wt9:
+        stops = [b for b, blk in enumerate(wt9.blocks) if not blk["cleanup"] for st in blk["s"]
+                 if st["p"]["l"] == 0 and st["rv"]["k"] == "agg" and st["rv"].get("variant") == "Ok" and any((o.get("const") or {}).get("val") is True for o in st["rv"]["ops"])]
+        allowed = set()
+        for b, blk in enumerate(wt9.blocks):
+            if blk["cleanup"] or blk["t"]["k"] != "switch":
+                continue
+            tm, labels = A.switch_info(wt9, b)
+            if tm.k == "discr" and any(x.k == "call" and x.a[0].endswith("Receiver::<T>::recv") for x in A.walk(tm)):
+                for tg, ns in labels.items():
+                    if ns == ["Err"] or ns == ["Close"]:
+                        allowed.add(tg)
+        other_arms = []
+        for b, blk in enumerate(wt9.blocks):
+            if blk["cleanup"] or blk["t"]["k"] != "switch":
+                continue
+            tm, labels = A.switch_info(wt9, b)
+            if tm.k == "discr" and any(x.k == "call" and x.a[0].endswith("Receiver::<T>::recv") for x in A.walk(tm)):
+                other_arms += [tg for tg, ns in labels.items() if ns and ns != ["Err"] and ns != ["Close"] and ns != ["Ok"]]
+        bad = [b for b in stops if b not in allowed and any(b in A.reach(wt9, [a]) for a in other_arms)]
+        ctx.ob("R-C14.9", wt9, "worker-stops-only-on-close-or-a-closed-queue", bool(stops) and bool(allowed) and not bad,
+               "Ok(true) is answered only for WorkerMessage::Close and a closed queue" if (stops and allowed and not bad) else
+               "worker_tick can answer Ok(true) (bb%s) while handling an ordinary message: the worker thread exits, the pool shrinks, and once no worker is left nothing flushes or compacts — writers wait in the stall loops forever" % bad[:2],
+               wt9.loc(bad[0]) if bad else "")
+        # ---- R-C14.10 every Compact message is executed by SOME worker: the "leave compactions to the others" bounce needs
+        # pool_size > 1 AND this worker being one particular worker
+        og9 = ctx.og(wt9)
+        resend = [b for b, t in wt9.calls() if A.cname(t).endswith("Sender::<T>::send") and any(x.k == "agg" and "Compact" in str(x.a[0]) for x in A.walk(og9.of_operand(t["args"][1])))]
+        ok10 = True
+        detail10 = "no compaction bounce"
+        if resend:
+            conds = A.edge_conditions(wt9, resend[0]) if hasattr(A, "edge_conditions") else []
+            gt1 = eq_id = False
+            for sb, blk in enumerate(wt9.blocks):
+                if blk["cleanup"] or blk["t"]["k"] != "switch" or not A.dominates(wt9, sb, resend[0]):
+                    continue
+                cmp_ = A.compare_switch(wt9, sb, og9)
+                if not cmp_:
+                    continue
+                op, l, r_, tt, ft = cmp_
+                on_true = any(resend[0] in A.reach(wt9, [x]) for x in tt) and not any(resend[0] in A.reach(wt9, [x], avoid=[sb]) for x in ft)
+                if A.ends_with_field(l, "pool_size") and op == "Gt" and r_.k == "const" and tuple(r_.a) == ("int", 1) and on_true:
+                    gt1 = True
+                if A.ends_with_field(l, "worker_id") and op == "Eq" and r_.k == "const" and on_true:
+                    eq_id = True
+            ok10 = gt1 and eq_id
+            detail10 = "a Compact message is re-queued only when pool_size > 1 and by one particular worker" if ok10 else \
+                "the compaction bounce is not limited to `pool_size > 1 && worker_id == <one id>` (pool_size>1: %s, one worker: %s): with some pool size every worker re-queues the Compact message and nobody compacts — L0 grows until writers are halted forever" % (gt1, eq_id)
+        ctx.ob("R-C14.10", wt9, "some-worker-executes-a-compact-message", ok10, detail10, wt9.loc(resend[0]) if resend else "")
 
     # ---- borrowed obligations (mechanisms owned by other properties that this property's verdict also rests on)
     # single-writer read-modify-write helpers are linearizable only if the snapshot is taken after the lock
